@@ -248,6 +248,7 @@ def C18(tier):
              gen=dict(count=(300, 3000), params={"pair": "1", "deep": "1"})),
         num_stage("moments_and_axis_forms", "c06/c07", (3000, 30000)),
         num_stage("moments_overflowing_sums", "c18big", (300, 3000)),
+        num_stage("moments_non_dyadic_offsets", "mompair", (1500, 10000)),
         num_stage("axis_forms_unusual_weights", "c18w", (1500, 10000)),
         num_stage("axis_forms_vs_lanes", "axpair", (1500, 10000)),
     ]
